@@ -482,8 +482,15 @@ def m_rename(ex, args, kw):
     ex.check(f"{ex.target_short}.at_most_one_installer[no other participant is installing when the rename succeeds]",
              mk_bool(z3.Not(lift_bool(f["inst"]))),
              "I1: a successful rename makes this participant the only installer")
+    # the renamed directory must already hold this participant's lock file:
+    # an empty lock directory can be renamed over by the next starter, who would
+    # then be a second installer (and removed by a leaver's rmdir)
+    ex.check(f"{ex.target_short}.at_most_one_installer[the renamed directory already holds this participant's "
+             f"lock file]", z3.BoolVal(f["g_tmp_name"] is not None),
+             "get_ethertype(tmpdir) comes before os.rename(tmpdir, lockdir): the lock directory is never empty "
+             "while its installer works")
     f["dir"] = True
-    f["me_reg"] = True
+    f["me_reg"] = f["g_tmp_name"] is not None
     f["me_inst"] = True
     f["g_installer"] = True
     f["g_my_name"] = f["g_tmp_name"]
